@@ -20,6 +20,8 @@
 //                          arm (dof_armature + mj_actuatorArmature), tenarm, tenJ (dense ntendon x nv), body_mass,
 //                          body_inertia, xipos, ximat, qfrc_bias, rne0 (mj_rne flg_acc=0), tbias (mj_tendonBias on
 //                          zeros), cinert
+//   integ dt v..           mj_integratePos(m, d->qpos, v, dt) in place                  -> ok
+//   mq                     -> fullM nv*nv .. xipos 3nb .. qfrc_bias nv ..   (light dump for the Lagrangian check)
 //   jac b                  mj_jacBodyCom(m, d, jacp, jacr, b)                        -> jacp 3nv .. jacr 3nv ..
 //   round v(nv) y(nv)      Mv = mj_mulM(v); x1 = mj_solveM(Mv); x2 = mj_solveM(y); r2 = mj_mulM(x2)   -> Mv x1 x2 r2
 //   rne flg                mj_rne(m, d, flg, res) with the current d->qacc           -> nv floats
@@ -260,6 +262,17 @@ int main(void) {
         printf("\n");
       }
       free(v); free(r);
+    } else if (!strcmp(op, "integ") && n == 2 + nv) {
+      double dt; double* v = (double*)malloc(sizeof(double) * (nv + 1));
+      if (!getf(tok[1], &dt) || !getv(tok + 2, nv, v)) printf("bad-op\n");
+      else { mj_integratePos(m, d->qpos, v, dt); printf("ok\n"); }
+      free(v);
+    } else if (!strcmp(op, "mq") && n == 1) {
+      double* full = (double*)calloc((size_t)nv * nv + 1, sizeof(double));
+      mj_fullM(m, d, full);
+      printf("mq"); pvec("fullM", full, nv * nv); pvec("xipos", d->xipos, 3 * (int)m->nbody);
+      pvec("qfrc_bias", d->qfrc_bias, nv); printf("\n");
+      free(full);
     } else if (!strcmp(op, "dump") && n == 1) {
       op_dump();
     } else if (!strcmp(op, "jac") && n == 2) {
